@@ -438,7 +438,7 @@ func cmdCheck(args []string) int {
 		fmt.Fprintln(os.Stderr, "govc: engine error:", err)
 		return 2
 	}
-	timeout := 6000
+	timeout := 12000
 	if *tier == "thorough" {
 		timeout = 60000
 	}
@@ -484,7 +484,7 @@ func cmdCheck(args []string) int {
 		fmt.Printf("ENGINE-ERROR: %s\n", msg)
 		return 2
 	}
-	dischargeAll(dir, s.decls, vcs, filter, timeout, 14)
+	dischargeAll(dir, s.decls, vcs, filter, timeout, 10)
 	return report(s, *prop, *tier, seed, vcs, filter, t0, dir, timeout)
 }
 
